@@ -254,6 +254,8 @@ static void iv_fd_epoll_deinit(struct iv_state *st)
 	close(st->u.epoll.epoll_fd);
 }
 
+static int iv_active_fd_pipe_wr = -1;
+
 static int iv_fd_epoll_create_active_fd(void)
 {
 	int fd;
@@ -281,8 +283,27 @@ static int iv_fd_epoll_create_active_fd(void)
 				 strerror(errno));
 		}
 
+		/*
+		 * Make the read end permanently readable by putting a
+		 * byte into the pipe, and keep the write end open: a
+		 * read end whose write end has been closed is reported
+		 * as hung up by epoll even while it is registered with
+		 * an empty event mask, which would make every thread
+		 * that has events registered spin in its event loop.
+		 */
+		do {
+			ret = write(pfd[1], "", 1);
+		} while (ret < 0 && errno == EINTR);
+
+		if (ret != 1) {
+			iv_fatal("iv_fd_epoll_create_active_fd: pipe "
+				 "write returned %d", ret);
+		}
+
+		iv_fd_set_cloexec(pfd[1]);
+
 		fd = pfd[0];
-		close(pfd[1]);
+		iv_active_fd_pipe_wr = pfd[1];
 	}
 
 	return fd;
@@ -333,8 +354,13 @@ static void iv_fd_epoll_event_rx_off(struct iv_state *st)
 	}
 
 	___mutex_lock(&iv_fd_epoll_active_fd_mutex);
-	if (!--iv_active_fd_refcount)
+	if (!--iv_active_fd_refcount) {
 		close(iv_active_fd);
+		if (iv_active_fd_pipe_wr != -1) {
+			close(iv_active_fd_pipe_wr);
+			iv_active_fd_pipe_wr = -1;
+		}
+	}
 	___mutex_unlock(&iv_fd_epoll_active_fd_mutex);
 
 	st->numobjs--;
